@@ -144,6 +144,7 @@ def fp(fn, u, opts):
         r = fn(u, **opts)
         if CTX[0] is not None:
             CTX[0].out((u, sorted(opts.items()), r))
+            CTX[0].remember("ural.fingerprint_url:fingerprint_url", [u], dict(opts), r, cap=4000)
         return r
     except Exception as e:
         return ("EXC", type(e).__name__, str(e)[:80])
